@@ -331,6 +331,12 @@ pub fn cfg_list(full: bool) -> Vec<PairCfg> {
     v.push(mk("retry", &|c| c.retry = true));
     v.push(mk("cert500", &|c| c.cert_len = 500));
     v.push(mk("cert10k", &|c| c.cert_len = 10_000));
+    v.push(mk("nopace", &|c| {
+        // a huge fixed window: the pacer always has tokens, so send instants do not depend on
+        // when poll_transmit happens to be called
+        c.client.controller = Ctl::Fixed(1_000_000_000);
+        c.server.controller = Ctl::Fixed(1_000_000_000);
+    }));
     v.push(mk("idle30s", &|c| {
         c.client.idle_ms = Some(30_000);
         c.server.idle_ms = Some(20_000);
@@ -427,6 +433,7 @@ pub fn apply_op(p: &mut StdPair, op: &Op) {
         Op::Rebind(n, a) => {
             let from = p.w.emitted;
             p.w.src_rewrite.push((*n, from, *a));
+            p.w.aliases.push((*a, *n));
             return;
         }
         Op::MaxDatagrams(n) => {
